@@ -116,3 +116,10 @@ Theorem C24_inverse_certificate_example :
 Proof. exact (@inverse_certificate_example). Qed.
 Print Assumptions C24_inverse_certificate_example.
 
+Theorem C24_svd_rank_default_counts_nonzero (m n k r : nat) (s : Rvec) (sig : R) :
+  desc_check ROps k s = true -> (0 < r <= k)%nat ->
+  (forall p, (p < r)%nat -> 0 < s p) -> (forall p, (r <= p < k)%nat -> s p = 0) ->
+  0 <= sig -> INR (Nat.max m n) * sig * s O < s (pred r) ->
+  svd_rank_default ROps sig m n k s = r.
+Proof. exact (svd_rank_default_counts_nonzero m n k r s sig). Qed.
+Print Assumptions C24_svd_rank_default_counts_nonzero.
